@@ -47,6 +47,7 @@ type Env struct {
 	Locking lockingkeeper.Keeper
 	Goat    goatkeeper.Keeper
 	Engine  *fakeEngine
+	Keys    map[string]*storetypes.KVStoreKey
 }
 
 type fakeEngine struct{}
@@ -93,7 +94,7 @@ func NewEnv() *Env {
 	acc := authkeeper.NewAccountKeeper(cdc, runtime.NewKVStoreService(keys["acc"]), authtypes.ProtoBaseAccount,
 		map[string][]string{}, addrCodec, prefix, authtypes.NewModuleAddress("gov").String())
 
-	e := &Env{MS: ms, Cdc: cdc, Acc: acc, Engine: &fakeEngine{}}
+	e := &Env{MS: ms, Cdc: cdc, Acc: acc, Engine: &fakeEngine{}, Keys: keys}
 	e.Relayer = relayerkeeper.NewKeeper(cdc, addrCodec, runtime.NewKVStoreService(keys[relayertypes.StoreKey]), acc, log.NewNopLogger())
 	e.Bitcoin = bitcoinkeeper.NewKeeper(cdc, addrCodec, runtime.NewKVStoreService(keys[bitcointypes.StoreKey]), log.NewNopLogger(), e.Relayer)
 	e.Locking = lockingkeeper.NewKeeper(cdc, addrCodec, runtime.NewKVStoreService(keys[lockingtypes.StoreKey]), acc, log.NewNopLogger())
